@@ -4,4 +4,4 @@ import sdp_common
 
 
 def run(ctx):
-    return sdp_common.run_sdp(ctx, "C10", ['default','rtxorphan','manyext','fallback'], 150, 4000, ['PayloadsUnique','AttrsReferToListed','AptListed','ExtmapOK'])
+    return sdp_common.run_sdp(ctx, "C10", ['default','rtxorphan','manyext','fallback','ptcollide'], 150, 4000, ['PayloadsUnique','AttrsReferToListed','AptListed','ExtmapOK'])
